@@ -15,7 +15,7 @@ func TestExploreStress(t *testing.T) {
 	sigs := map[string]int{}
 	for seed := 1; seed <= n; seed++ {
 		sc := rapidExample(seed)
-		cr, err := runChild(sc, 6*time.Second, 120*time.Second)
+		cr, err := runChild(sc, 6*time.Second, 120*time.Second, nil)
 		if err != nil || cr.Res == nil {
 			fmt.Println("seed", seed, "err", err, "timedout", cr.TimedOut, tail(cr.Output, 2000))
 			continue
